@@ -32,6 +32,20 @@ def gen(rng, tier):
     if rng.random() < 0.4:
         focus["facilities"] = True
     spec = C.gen_edit(rng, C.maybe_from_json(rng, C.maybe_history(rng, C.forward_spec(rng, tier, focus), 0.3)))
+    if rng.random() < 0.1 and spec["model"]["comps"]:
+        m_ = spec["model"]
+        n0_ = len(m_["tasks"])
+        i_ = G.append_task(m_, {"id": "tsub", "work": rng.choice([1.0, 2.0, 3.0]), "rate": rng.choice([0.5, 1.0]), "comp": rng.randrange(len(m_["comps"])),
+                                "sub": {"file": None, "unit_s": 60, "remove_abs": rng.random() < 0.6}}, rng)
+        for a_ in range(n0_):
+            if rng.random() < 0.25:
+                m_["deps"].append([a_, i_, rng.choice(spec["profile"]["kinds"])])
+        for wp_ in m_["wps"]:
+            if rng.random() < 0.7:
+                wp_["targets"].append(i_)
+                for f_ in wp_["facs"]:
+                    f_["skills"]["tsub"] = 1.0
+        spec["ranks"]["tsub"] = max(spec["ranks"].values()) + 1
     if spec.get("history") is None and not spec["model"].get("comp_ctor_tasks") and rng.random() < 0.08:
         spec["appended"] = rng.randint(1, 8)
     elif spec.get("history") is None and not spec.get("edit") and rng.random() < 0.1:
